@@ -514,3 +514,340 @@ Definition show (k : kind) (tbl : list (bytes * plan)) (m : outmode) (paths : li
            (d : dir) (faults : list (nat * fmode)) :=
   let r := run_step default_namer (fault_fun faults) (table_xf tbl) k m paths d in
   (outc r, map (fun e => (tag (snd e) (fst e), view (snd e))) (hist r), view (final r)).
+
+(** * Tie B: the statement language the source of the rewriters is translated into
+    (tools/py2coq_c15.py regenerates Gen/GenC15.v from pypyr/utils/filesystem.py on every run),
+    and its semantics: Python's `with`, `try/except Exception`, bare `raise`, `return`, local
+    flags - over the same primitives, states and fault assignments as the op model above.
+    Proofs/GenC15Proofs.v shows that the translated methods, run by this semantics, ARE the
+    flat op lists + flag-driven [unwind] of the model, for every fault assignment and plan. *)
+Inductive pexpr :=
+| XInPath                 (* in_path *)
+| XOutPath                (* out_path *)
+| XInfileName             (* infile.name *)
+| XOutfileName            (* outfile.name *)
+| XDirnameIn.             (* os.path.dirname(in_path) *)
+
+Inductive pcond :=
+| CSameFile               (* is_same_file(in_path, out_path) *)
+| COutPath                (* out_path *)
+| CInPlaceFlag            (* is_in_place_edit *)
+| COutfileNotNone.        (* outfile is not None *)
+
+Inductive wkind :=
+| WOpenRead (p : pexpr)                    (* open(p [, read mode]) *)
+| WOpenWrite (p : pexpr)                   (* open(p, write mode) *)
+| WMkTemp (d : pexpr) (delete : bool).     (* NamedTemporaryFile(dir=d, delete=...) *)
+
+Inductive wbind := BInfile | BOutfile.
+
+Inductive stm :=
+| SSkip
+| SSeq (a b : stm)
+| SIf (c : pcond) (a b : stm)
+| SSetOutNone                    (* out_path = None *)
+| SSetInPlace (b : bool)         (* is_in_place_edit = b *)
+| SSetOutfileNone                (* outfile = None *)
+| SWith (w : wkind) (b : wbind) (body : stm)
+| STry (body handler : stm)      (* try: body / except Exception [as e]: handler *)
+| SReraise                       (* raise *)
+| SReturn
+| SLoad                          (* obj = self.object_representer.load(infile) *)
+| SWriteItems                    (* outfile.writelines(self.formatter(infile))
+                                    / self.object_representer.dump(outfile, self.formatter(obj)) *)
+| SReplace (a b : pexpr)         (* os.replace(a, b) *)
+| SRemove (a : pexpr).           (* os.remove(a) *)
+
+Record penv := mkenv {
+  v_in : name;               (* in_path *)
+  v_out : option name;       (* out_path; None also stands for any falsy value *)
+  v_inplace : bool;          (* is_in_place_edit *)
+  v_outfile : bool           (* outfile is bound to a file object *)
+}.
+
+Inductive pout := PNorm | PRet | PExc (e : exn) | PReraise | PCrash | PStuck.
+
+Record pst := mkpst {
+  p_env : penv;
+  p_st : st;
+  p_n : nat;
+  p_hist : list op;               (* the primitives issued, in order *)
+  p_stop : option (nat * op);
+  p_rf : bool
+}.
+
+Definition first_stop (a : option (nat * op)) (b : nat * op) : option (nat * op) :=
+  match a with Some x => Some x | None => Some b end.
+
+Definition is_remove (o : op) : bool := match o with Remove => true | _ => false end.
+
+Section PExec.
+Variables (nm : namer) (F : nat -> fmode) (pl : plan) (same : bool).
+
+(** one primitive, at the current index *)
+Definition do_prim (o : op) (x : pst) : pout * pst :=
+  let s := p_st x in let n := p_n x in
+  match F n with
+  | Crash => (PCrash, mkpst (p_env x) s (S n) (p_hist x ++ [o]) (p_stop x) (p_rf x))
+  | Raise => (PExc (EInj n),
+              mkpst (p_env x) (fail_effect o s) (S n) (p_hist x ++ [o])
+                    (first_stop (p_stop x) (n, o)) (orb (p_rf x) (is_remove o)))
+  | NoFault => (PNorm, mkpst (p_env x) (exec nm o s) (S n) (p_hist x ++ [o])
+                             (p_stop x) (p_rf x))
+  end.
+
+(** a data-driven failure (not a primitive: no index consumed) *)
+Definition data_fail (o : op) (x : pst) : pout * pst :=
+  (PExc (data_exn o),
+   mkpst (p_env x) (p_st x) (p_n x) (p_hist x) (first_stop (p_stop x) (p_n x, o)) (p_rf x)).
+
+(** the write loop: format an item (may raise), write it (a primitive) *)
+Fixpoint write_items (its : list (option bytes)) (x : pst) : pout * pst :=
+  match its with
+  | [] => (PNorm, x)
+  | None :: _ => data_fail FmtFail x
+  | Some c :: r =>
+      match do_prim (Write c) x with
+      | (PNorm, x') => write_items r x'
+      | other => other
+      end
+  end.
+
+Definition eval_cond (c : pcond) (x : pst) : bool :=
+  match c with
+  | CSameFile => same
+  | COutPath => match v_out (p_env x) with Some _ => true | None => false end
+  | CInPlaceFlag => v_inplace (p_env x)
+  | COutfileNotNone => v_outfile (p_env x)
+  end.
+
+Definition set_env (e : penv) (x : pst) : pst :=
+  mkpst e (p_st x) (p_n x) (p_hist x) (p_stop x) (p_rf x).
+
+Definition open_op (w : wkind) (b : wbind) (e : penv) : option (op * op) :=   (* open, close *)
+  match w, b with
+  | WOpenRead XInPath, BInfile => Some (OpenRead (v_in e), CloseSrc)
+  | WOpenWrite XOutPath, BOutfile =>
+      match v_out e with Some o => Some (OpenWrite o, CloseW) | None => None end
+  | WMkTemp XDirnameIn false, BOutfile => Some (MkTemp (v_in e), CloseW)
+  | _, _ => None
+  end.
+
+Definition bind_env (b : wbind) (e : penv) : penv :=
+  match b with
+  | BInfile => e
+  | BOutfile => mkenv (v_in e) (v_out e) (v_inplace e) true
+  end.
+
+Fixpoint pexec (c : stm) (x : pst) : pout * pst :=
+  match c with
+  | SSkip => (PNorm, x)
+  | SSeq a b => match pexec a x with (PNorm, x') => pexec b x' | other => other end
+  | SIf cnd a b => if eval_cond cnd x then pexec a x else pexec b x
+  | SSetOutNone =>
+      let e := p_env x in (PNorm, set_env (mkenv (v_in e) None (v_inplace e) (v_outfile e)) x)
+  | SSetInPlace b =>
+      let e := p_env x in (PNorm, set_env (mkenv (v_in e) (v_out e) b (v_outfile e)) x)
+  | SSetOutfileNone =>
+      let e := p_env x in (PNorm, set_env (mkenv (v_in e) (v_out e) (v_inplace e) false) x)
+  | SReturn => (PRet, x)
+  | SReraise => (PReraise, x)
+  | SLoad => if load_ok pl then (PNorm, x) else data_fail LoadFail x
+  | SWriteItems => write_items (items pl) x
+  | SReplace XOutfileName XInfileName => do_prim (Replace (v_in (p_env x))) x
+  | SReplace _ _ => (PStuck, x)
+  | SRemove XOutfileName => do_prim Remove x
+  | SRemove _ => (PStuck, x)
+  | STry body handler =>
+      match pexec body x with
+      | (PExc e, x1) =>
+          match pexec handler x1 with
+          | (PNorm, x2) => (PNorm, x2)            (* swallowed *)
+          | (PReraise, x2) => (PExc e, x2)        (* bare raise: the exception being handled *)
+          | other => other
+          end
+      | other => other
+      end
+  | SWith w b body =>
+      match open_op w b (p_env x) with
+      | None => (PStuck, x)
+      | Some (oo, oc) =>
+          match do_prim oo x with
+          | (PNorm, x1) =>
+              match pexec body (set_env (bind_env b (p_env x1)) x1) with
+              | (PCrash, x2) => (PCrash, x2)
+              | (PStuck, x2) => (PStuck, x2)
+              | (o2, x2) =>
+                  (* __exit__: close, whatever the body did; a failing close replaces it *)
+                  match do_prim oc x2 with
+                  | (PNorm, x3) => (o2, x3)
+                  | other => other
+                  end
+              end
+          | other => other
+          end
+      end
+  end.
+
+(** what is compared: final state, outcome, the primitives issued in order, their number, the
+    step that raised, whether a clean-up remove failed.  (The intermediate states need not be
+    listed: the state before primitive k is the final state of the run killed at k, and the
+    comparison is for every fault assignment.)  The model's [in_try] is bookkeeping for
+    [unwind] and is erased. *)
+Definition erase_st (s : st) : st := set_try false s.
+
+Definition summary := (st * outcome * list op * nat * option (nat * op) * bool)%type.
+
+Definition pexec_summary (r : pout * pst) : summary :=
+  let x := snd r in
+  (erase_st (p_st x),
+   match fst r with
+   | PNorm | PRet => Done | PExc e => Raised e | PCrash => Crashed
+   | PReraise | PStuck => Unsupp end,
+   p_hist x, p_n x, p_stop x, p_rf x).
+
+Definition run_method (body : stm) (src : name) (out : option name) (n : nat) (s : st) : summary :=
+  pexec_summary (pexec body (mkpst (mkenv src out false false) s n [] None false)).
+
+End PExec.
+
+Definition res_summary (r : result) : summary :=
+  (erase_st (final r), outc r, map fst (hist r), next r, stop r, rmfail r).
+
+(** what the model runs for one file: [file_ops] with the out FILE already resolved *)
+Definition method_ops (k : kind) (pl : plan) (src : name) (out : option name) : list op :=
+  match out with
+  | None => inplace_ops k pl src
+  | Some o => if String.eqb o src then inplace_ops k pl src else direct_ops k pl src o
+  end.
+
+(** ** the loop method, FileRewriter.files_in_to_out: locals, tests on the out path, the
+    per-file call of in_to_out *)
+Inductive fvar := VBasedir | VKnown | VActualOut.   (* basedir_out, is_outfile_name_known, actual_out *)
+
+Inductive fexpr :=
+| FNone
+| FBool (b : bool)
+| FPathOut                      (* pathlib_out = Path(out_path) *)
+| FOutParent                    (* pathlib_out.parent *)
+| FVar (v : fvar)
+| FJoinName (base : fexpr).     (* base.joinpath(actual_in.name) *)
+
+Inductive fcond :=
+| FCInPaths                     (* in_paths            (the glob result is not empty) *)
+| FCOutPath                     (* out_path *)
+| FCIsStrDir                    (* FileRewriter.is_str_dir(out_path) *)
+| FCIsDir                       (* pathlib_out.is_dir() *)
+| FCIsFile                      (* actual_in.is_file() *)
+| FCManyPaths                   (* len(in_paths) > 1 *)
+| FCVar (v : fvar).
+
+Inductive fstm :=
+| FSkip
+| FSeq (a b : fstm)
+| FIf (c : fcond) (a b : fstm)
+| FAssign (v : fvar) (e : fexpr)
+| FFor (body : fstm)            (* for path in in_paths: actual_in = Path(path); body *)
+| FRaiseError                   (* raise Error(...) *)
+| FCall (out : option fexpr).   (* self.in_to_out(in_path=actual_in [, out_path=out]) *)
+
+Inductive fval := FVNone | FVBool (b : bool) | FVOut | FVOutParent | FVJoin (base : fval).
+
+Record fenv := mkfenv { f_basedir : fval; f_known : fval; f_actual_out : fval }.
+
+Record floop := mkfl { fl_env : fenv; fl_st : st; fl_n : nat; fl_hist : list (op * st) }.
+
+Section FExec.
+(** the world: the glob result, what out is (the model's [outmode] is the harness's reading of
+    the out argument; [strdir] / [isdir] are the two tests the code makes on it), and the
+    method the loop calls for one file *)
+Variables (paths : list name) (m : outmode) (strdir isdir : bool).
+Variable callee : name -> option name -> nat -> st -> result.
+
+Definition fget (v : fvar) (e : fenv) : fval :=
+  match v with VBasedir => f_basedir e | VKnown => f_known e | VActualOut => f_actual_out e end.
+
+Definition fset (v : fvar) (x : fval) (e : fenv) : fenv :=
+  match v with
+  | VBasedir => mkfenv x (f_known e) (f_actual_out e)
+  | VKnown => mkfenv (f_basedir e) x (f_actual_out e)
+  | VActualOut => mkfenv (f_basedir e) (f_known e) x
+  end.
+
+Fixpoint feval (x : fexpr) (e : fenv) : fval :=
+  match x with
+  | FNone => FVNone
+  | FBool b => FVBool b
+  | FPathOut => FVOut
+  | FOutParent => FVOutParent
+  | FVar v => fget v e
+  | FJoinName b => FVJoin (feval b e)
+  end.
+
+Definition ftruthy (v : fval) : bool :=
+  match v with FVNone => false | FVBool b => b | _ => true end.
+
+Definition fcond_eval (c : fcond) (p : name) (x : floop) : bool :=
+  match c with
+  | FCInPaths => match paths with [] => false | _ => true end
+  | FCOutPath => match m with NoOut => false | _ => true end
+  | FCIsStrDir => strdir
+  | FCIsDir => isdir
+  | FCIsFile => match lookup p (sd (fl_st x)) with Some _ => true | None => false end
+  | FCManyPaths => match paths with _ :: _ :: _ => true | _ => false end
+  | FCVar v => ftruthy (fget v (fl_env x))
+  end.
+
+(** the FILE an out value denotes for in file [p] (None: not a value the model knows) *)
+Definition out_name (v : fval) (p : name) : option name :=
+  match v, m with
+  | FVOut, OutFile o => Some o
+  | FVJoin FVOut, OutDir d => Some (d ++ basename p)
+  | _, _ => None
+  end.
+
+Definition fl_end (x : floop) (o : outcome) : result :=
+  mkres (fl_st x) o (fl_hist x) (fl_n x) None false.
+
+Fixpoint fexec (c : fstm) (p : name) (x : floop) : option result * floop :=
+  match c with
+  | FSkip => (None, x)
+  | FSeq a b => match fexec a p x with (None, x') => fexec b p x' | ended => ended end
+  | FIf cnd a b => if fcond_eval cnd p x then fexec a p x else fexec b p x
+  | FAssign v e =>
+      (None, mkfl (fset v (feval e (fl_env x)) (fl_env x)) (fl_st x) (fl_n x) (fl_hist x))
+  | FRaiseError => (Some (fl_end x (Raised EConfig)), x)
+  | FCall oe =>
+      let out := match oe with
+                 | None => Some None
+                 | Some e => match out_name (feval e (fl_env x)) p with
+                             | Some o => Some (Some o) | None => None end
+                 end in
+      match out with
+      | None => (Some (fl_end x Unsupp), x)
+      | Some o =>
+          let r := callee p o (fl_n x) (fl_st x) in
+          match outc r with
+          | Done => (None, mkfl (fl_env x) (final r) (next r) (fl_hist x ++ hist r))
+          | _ => (Some (prepend (fl_hist x) r), x)
+          end
+      end
+  | FFor body =>
+      (fix loop (ps : list name) (x : floop) : option result * floop :=
+         match ps with
+         | [] => (None, x)
+         | q :: rest =>
+             match fexec body q x with
+             | (None, x') => loop rest x'
+             | ended => ended
+             end
+         end) paths x
+  end.
+
+Definition run_loop_method (body : fstm) (n : nat) (s : st) : result :=
+  match fexec body "" (mkfl (mkfenv FVNone FVNone FVNone) s n []) with
+  | (Some r, _) => r
+  | (None, x) => fl_end x Done
+  end.
+
+End FExec.
